@@ -147,28 +147,37 @@ Definition rhs_values (r : rhs) (n : nat) : option (list V) :=
 
 (* new shape and the list of (position, value) assignments, in assignment order.
    [cart] = enumeration order of a region (cartF: F order, the order of numpy's exactly-shaped right-hand side) *)
+Definition finish_set (r : rhs) (s' : shape) (ps : list idx) : option (shape * list (idx * V)) :=
+  match rhs_values r (length ps) with
+  | Some vs => if forallb (inb s') ps then Some (s', combine ps vs) else None
+  | None => None end.
+
+Definition subs_ok (s : shape) (rows : list (list Z)) : bool :=
+  match rows with [] => false | r0 :: _ =>
+    let m := length r0 in
+    Nat.leb 1 m && Nat.leb (length s) m && forallb (fun r => Nat.eqb (length r) m) rows end.
+
+Definition region_ok (s : shape) (es : list kelem) : bool :=
+  Nat.leb 1 (length es) && Nat.leb (length s) (length es) && forallb elem_new_ok (skipn (length s) es).
+
 Definition resolve_set (cart : list (list nat) -> list idx) (s : shape) (k : key) (r : rhs)
   : option (shape * list (idx * V)) :=
-  let finish (s' : shape) (ps : list idx) :=
-    match rhs_values r (length ps) with
-    | Some vs => if forallb (inb s') ps then Some (s', combine ps vs) else None
-    | None => None end in
   match k with
   | KLin _ | KLinList _ | KLinSlice _ _ _ =>        (* linear keys never resize *)
-      match resolve_get s k with Some (_, ps) => finish s ps | None => None end
-  | KSubs rows => match rows with [] => None | r0 :: _ =>
-      let m := length r0 in
-      if negb (Nat.leb 1 m) || negb (Nat.leb (length s) m) || negb (forallb (fun r => Nat.eqb (length r) m) rows) then None else
-      match opt_all (map nonneg_row rows) with
-      | Some ps => finish (grow s (col_need ps m)) ps
-      | None => None end end
+      match resolve_get s k with Some (_, ps) => finish_set r s ps | None => None end
+  | KSubs rows =>
+      if subs_ok s rows then
+        match opt_all (map nonneg_row rows) with
+        | Some ps => finish_set r (grow s (col_need ps (length (hd [] rows)))) ps
+        | None => None end
+      else None
   | KRegion es =>
-      if negb (Nat.leb 1 (length es)) || negb (Nat.leb (length s) (length es))
-         || negb (forallb elem_new_ok (skipn (length s) es)) then None else
-      let s' := grow s (map elem_need es) in
-      match region_lists s' es with
-      | Some ls => finish s' (cart (map snd ls))
-      | None => None end
+      if region_ok s es then
+        let s' := grow s (map elem_need es) in
+        match region_lists s' es with
+        | Some ls => finish_set r s' (cart (map snd ls))
+        | None => None end
+      else None
   end.
 
 (* ------------------------------------------------------------------------------------------------ *)
@@ -265,7 +274,9 @@ Definition sp_replace (es asg : list (idx * V)) : list (idx * V) :=
 Definition sp_set (S : sparse V) (s' : shape) (asg : list (idx * V)) (replace : bool) : option (sparse V) :=
   if nodupb (map fst asg) then
     let es := map (fun e : idx * V => (sp_pad (length s') (fst e), snd e)) (entries S) in
-    Some (of_entries s' (if replace then sp_replace es asg else sp_apply es asg))
+    if forallb (inb s') (map fst es) then
+      Some (of_entries s' (if replace then sp_replace es asg else sp_apply es asg))
+    else None
   else None.
 
 Definition step_sparse (S : sparse V) (o : op) : option (sparse V * outv) :=
